@@ -116,6 +116,7 @@ type c13Config struct {
 	Rolling bool   `json:"rolling"`
 	GenSel  bool   `json:"generateSelector"`
 	Strict  bool   `json:"strict"`
+	Cluster bool   `json:"clusterParent,omitempty"`
 }
 
 type c13Case struct {
@@ -268,6 +269,7 @@ func TestVerif_C13_Grammar(t *testing.T) {
 	cfgs := []c13Config{
 		{Name: "plain"}, {Name: "gensel", GenSel: true}, {Name: "rolling", Rolling: true}, {Name: "rolling-gensel", Rolling: true, GenSel: true},
 		{Name: "strict", Strict: true}, {Name: "rolling-strict", Rolling: true, Strict: true},
+		{Name: "cluster", Cluster: true},
 	}
 	rng := sim.Rand("C13")
 	total := 0
@@ -301,7 +303,7 @@ func runC13(t *testing.T, id string, c c13Case) {
 	if c.Cfg.Rolling {
 		method = "RollingInPlace"
 	}
-	sc := &scenario{ID: uid, GenerateSelector: c.Cfg.GenSel, Finalize: true, Kinds: []kindCfg{{Kind: "Widget", Method: method}}}
+	sc := &scenario{ID: uid, GenerateSelector: c.Cfg.GenSel, ClusterParent: c.Cfg.Cluster, Finalize: true, Kinds: []kindCfg{{Kind: "Widget", Method: method}}}
 	sc.Kids = []kidCfg{{Kind: "Widget", Name: "c0-" + uid, Value: "v1"}, {Kind: "Widget", Name: "c1-" + uid, Value: "v1"}}
 	r := prepareScenario(sc)
 	defer r.close()
@@ -322,7 +324,11 @@ func runC13(t *testing.T, id string, c c13Case) {
 	s.MustCreate(sim.WidgetInfo.GVR(), r.asCreatedByMC(sc.Kids[0], "v1"))
 	s.MustCreate(sim.WidgetInfo.GVR(), r.asCreatedByMC(sc.Kids[1], "v1"))
 	s.MustCreate(sim.WidgetInfo.GVR(), r.asCreatedByMC(kidCfg{Kind: "Widget", Name: "stale-" + uid}, "v1"))
-	sec := sim.NewObject(sim.SecretInfo, sc.ns(), "s1-"+uid)
+	secNS := sc.ns()
+	if secNS == "" {
+		secNS = "cns-" + uid
+	}
+	sec := sim.NewObject(sim.SecretInfo, secNS, "s1-"+uid)
 	sim.SetLabels(sec, map[string]string{"a": "b"})
 	s.MustCreate(sim.SecretInfo.GVR(), sec)
 	if c.Hook == "finalize" {
@@ -331,6 +337,10 @@ func runC13(t *testing.T, id string, c c13Case) {
 		s.ExtDelete(sc.parentInfo().GVR(), sc.ns(), sc.parentName(), "")
 	}
 	body := strings.ReplaceAll(c.Body, "UID", uid)
+	if c.Cfg.Cluster {
+		// the namespaced children of a cluster-scoped parent live in their own namespace
+		body = strings.ReplaceAll(body, `"namespace":"ns-`+uid+`"`, `"namespace":"cns-`+uid+`"`)
+	}
 	valid := func(hook string) sim.HookResponse {
 		b, _ := json.Marshal(c13Template(hook, uid, c.Cfg.GenSel))
 		return sim.HookResponse{Status: 200, Body: b}
